@@ -70,8 +70,12 @@ RULES = {
     "the collections of the earlier ones (a membership test in a set built from them, or the value's own graph-output flag), and the "
     "loop over the outputs also records what it emits (an output can be listed twice); node outputs are disjoint from inputs and "
     "initializers by the IR's invariants (C01-R4)",
+    "R18": "what a value_info entry declares is kept: where the deserializer builds a value with the type / shape of its tensor and then applies "
+    "the value_info entry (which assigns both fields unconditionally), the tensor's information is put back exactly when the entry left the "
+    "field None - a wider test (`is None or has_unknown_dim()`) replaces a declared shape with unknown or named dimensions and their "
+    "denotations by the tensor's static one, so the value_info written back differs from the one read (rule shared with C17-R9)",
 }
-FLOORS = {"R1": 100, "R2": 40, "R3": 30, "R4": 1, "R5": 40, "R6": 20, "R7": 6, "R8": 3, "R9": 3, "R10": 10, "R11": 1, "R12": 12, "R13": 2, "R14": 10, "R15": 4, "R16": 20, "R17": 4}
+FLOORS = {"R1": 100, "R2": 40, "R3": 30, "R4": 1, "R5": 40, "R6": 20, "R7": 6, "R8": 3, "R9": 3, "R10": 10, "R11": 1, "R12": 12, "R13": 2, "R14": 10, "R15": 4, "R16": 20, "R17": 4, "R18": 1}
 EXPLANATION = (
     "Types every proto expression of serde.py through parameter annotations and the parsed onnx-ml.proto schema, "
     "collects per message the fields the deserializer reads and the serializer writes (attribute access, HasField, "
@@ -284,7 +288,7 @@ def _branch_fields(f: FuncInfo, proto_param: str, fields: set) -> dict:
     return out
 
 
-def rule_r12(ctx):
+def rule_r12(ctx, rule="R12", consequence=""):
     repo = ctx.repo
     rd = repo.func(f"{SERDE}:_deserialize_attribute")
     wr = repo.func(f"{SERDE}:_fill_in_value_for_attribute")
@@ -298,9 +302,9 @@ def rule_r12(ctx):
         if mem not in r or mem not in w or (not r[mem] and not w[mem]):
             continue  # R3 decides presence; unsupported kinds touch no field on either side
         n += 1
-        ctx.check("R12", f"AttributeType.{mem}: reader reads {sorted(r[mem])}, writer writes {sorted(w[mem])}", r[mem] == w[mem], rd, rd.node,
+        ctx.check(rule, f"AttributeType.{mem}: reader reads {sorted(r[mem])}, writer writes {sorted(w[mem])}", r[mem] == w[mem], rd, rd.node,
                   f"the deserializer's {mem} branch reads AttributeProto.{sorted(r[mem])} while the serializer's {mem} branch writes "
-                  f"{sorted(w[mem])}: a field the writer never fills for this kind is the unset default, so what is read from it is empty",
+                  f"{sorted(w[mem])}: a field the writer never fills for this kind is the unset default, so what is read from it is empty" + consequence,
                   how="fields touched through the proto parameter inside the `type_ == AttributeType.X` branches of both dispatch functions",
                   construct=f"{mem}: reader fields {sorted(r[mem])} vs writer fields {sorted(w[mem])}")
     ctx.require(n >= 12, f"only {n} attribute kinds compared")
@@ -1229,6 +1233,10 @@ def _guards_against(lp, coll, src, derived, emitters) -> bool:
 
 
 def run(ctx):
+    from . import c17
+
+    c17.rule_r9(ctx, rule="R18", consequence="the declared shape (unknown and named dimensions, denotations) or type of the entry is replaced by the tensor's, "
+                "so the value_info entry serialized afterwards is not the one that was read")
     rule_r17(ctx)
     rule_r16(ctx)
     rule_r14(ctx)
